@@ -5,7 +5,11 @@ Oracle: real  emit.argparse_function -> ast.unparse -> ast.parse -> parse.argpar
 descriptions of the argparse-expressible sub-domain x default text on/off x word-wrap on/off x wrap_description,
 compared with same_interface_argparse (description text, option names and order, help, types, defaults with the
 permitted normalisations, a return entry that carries a default).  Every failure is classified by the executable Coq
-classifier C04Spec.finding_class_C04 (through the driver); a failure the classifier does not name is a violation.
+classifier C04Spec2.finding_class_C04_r (through the driver: C04Spec's finding_class_C04 refined by the classes
+summary-quoted and help-quoted that a proof found inside its "no finding" region); a failure the classifier does not
+name is a violation, and a new class stands only for the failure it describes (the description / the help text coming
+back without its outer pair of quote marks) - any other difference at such a point is a violation.  A stratum of the
+oracle draws those shapes.
 Points outside C04_domain (names that are not distinct identifiers, types argparse cannot express) and points whose
 defaults are not scalars (class `unmodelled`) are skipped."""
 import fam_parseast
@@ -36,8 +40,12 @@ TRUSTED = [
     "is a finding class; short text is covered by correspondence and the oracle); C04_names_order holds for every combination",
     "outside guard_C04_ast and not proved: **kwargs-style parameters (the None marker of Optional[dict] is emitted through the "
     "recorded parse table), code-quoted defaults, carried bodies",
-    "finding_class_C04 (the partition of the failures of the real code) is validated by the oracle on every run, not proved "
-    "complete; guard_C04_ast covers the generated points the classifier leaves unflagged except the kwargs ones",
+    "finding_class_C04_r (the partition of the failures of the real code: finding_class_C04 plus the two classes of "
+    "model/C04Spec2.v) is validated by the oracle on every run, not proved complete; a proof found a failure the first "
+    "classifier did not name (a description wrapped in quote marks comes back without them, set_value strips one pair: "
+    "theorem C05_region_hole_quoted_summary; the same for help texts), now the classes summary-quoted and help-quoted "
+    "(proofs/C04Spec2Facts.v: the refinement only adds these, its guard is inside guard_C04); guard_C04_ast covers the "
+    "generated points the classifier leaves unflagged except the kwargs ones",
 ]
 
 
@@ -53,7 +61,7 @@ def _theorem_guard_audit(rng, n):
     g = run_model([dumps([Sym("c04_ast_check"), e, o["emit_default_doc"]]) for e, (_, o, _) in zip(enc, pts)])
     if any(r == "bad-request" for r in g[:1]):
         return {"theorem-guard:family-not-in-driver": 1}, []
-    cls = run_model([dumps([Sym("c04_class"), o["emit_default_doc"], False, False, e]) for e, (_, o, _) in zip(enc, pts)])
+    cls = run_model([dumps([Sym("c04_class_r"), o["emit_default_doc"], False, False, e]) for e, (_, o, _) in zip(enc, pts)])
     hist, failures = {"theorem-guard:inside": 0, "theorem-guard:points": n}, []
     for (ir, o, _), a, c in zip(pts, g, cls):
         ga = loads(a)
@@ -68,7 +76,7 @@ def _theorem_guard_audit(rng, n):
         ce = loads(c)
         if ce != "none":
             failures.append({"case": case, "class": None,
-                             "what": "inside guard_C04_ast but finding_class_C04 says %s" % (ce if ce == "out-of-domain" else unhx(ce[1]))})
+                             "what": "inside guard_C04_ast but finding_class_C04_r says %s" % (ce if ce == "out-of-domain" else unhx(ce[1]))})
             continue
         ok, what, _ = F.round_trip("argparse", ir, o2)
         if not ok:
@@ -199,6 +207,124 @@ def _wrap_off_length_audit(rng, n):
     return hist, failures
 
 
+# ------------------------------------------------------------------ the classes of model/C04Spec2.v
+NEW_CLASSES = ("summary-quoted", "help-quoted")
+
+
+def _refined(pts):
+    """[(refined class or None or 'out-of-domain', new classes that apply, parameters whose help text is quoted)] for
+    (ir, opts) points, from C04Spec2 (c04_class_r, c04_new_classes)"""
+    from common import Sym, dumps, loads, run_model, unhx
+    import irwire
+    reqs = []
+    for ir, o in pts:
+        e = irwire.enc_ir(fam_parseast._od(ir))
+        reqs += [dumps([Sym(f), o["emit_default_doc"], o["word_wrap"], o.get("wrap_description", False), e])
+                 for f in ("c04_class_r", "c04_new_classes")]
+    out, resp = [], run_model(reqs)
+    for k in range(len(pts)):
+        ce, nw = loads(resp[2 * k]), loads(resp[2 * k + 1])
+        cls = "out-of-domain" if ce == "out-of-domain" else None if ce == "none" else unhx(ce[1])
+        out.append((cls, [unhx(x) for x in nw[0]], [unhx(x) for x in nw[1]]))
+    return out
+
+
+def described_by_new_classes(ir, out, news, helps):
+    """a new class stands for the failure it describes only: the parsed-back description must be the input with the outer
+    pair of quote marks removed from the description (summary-quoted) and from the help text of the named parameters
+    (help-quoted) - every other difference (and an exception anywhere) is not what these classes describe"""
+    import copy
+    if out is None:
+        return False
+    exp = copy.deepcopy(ir)
+    if "summary-quoted" in news and isinstance(exp.get("doc"), str):
+        exp["doc"] = exp["doc"][1:-1]
+    for n in helps:
+        p = (exp.get("params") or {}).get(n)
+        if p is not None and isinstance(p.get("doc"), str):
+            p["doc"] = p["doc"][1:-1]
+    return not fam_parseast.same_interface(exp, out, "argparse")
+
+
+def _gen_new_shape(rng):
+    """an (ir, opts, tags) point whose description and / or one help text starts and ends with the same quote mark; next to
+    0..2 clean parameters"""
+    from collections import OrderedDict
+    import gen_ir
+    import gen_text as G
+    ir, _ = gen_ir.gen_ir(rng, nparams=rng.choice([0, 0, 1, 2]), returns="none", kwargs=False, clean=True)
+    k = rng.random()
+    where = "summary" if k < 0.5 else "help" if k < 0.85 else "both"
+    ir["doc"] = G.quoted_text(rng) if where != "help" else G.clean_prose(rng, max_words=6)
+    name = G.ident(rng)
+    while name in ir["params"]:
+        name = G.ident(rng)
+    typ = rng.choice(["int", "str", "float", "Optional[int]", "Optional[str]", "bool"])
+    p = {"doc": G.quoted_text(rng) if where != "summary" else G.clean_prose(rng), "typ": typ,
+         "default": gen_ir.consistent_default(rng, typ, ["value"])[1]}
+    items = list(ir["params"].items())
+    items.insert(rng.randint(0, len(items)), (name, p))
+    ir["params"] = OrderedDict(items)
+    opts = {"emit_default_doc": rng.random() < 0.3, "word_wrap": rng.random() < 0.5, "wrap_description": rng.random() < 0.25}
+    return ir, opts, ["quoted:" + where]
+
+
+def _classify_failure(case, out, info):
+    """the class a failure at a point is reported under: the refined class, except that a NEW class is kept only when the
+    failure is what the new classes that apply describe (otherwise None: a violation).  -> (class, note)"""
+    cls, news, helps = info
+    if cls in NEW_CLASSES and not described_by_new_classes(case["ir"], out, news, helps):
+        return None, " [not what the recorded class%s %s describe%s]" % ("es" if len(news) > 1 else "", ", ".join(news),
+                                                                        "" if len(news) > 1 else "s")
+    return cls, ""
+
+
+def _new_shape_oracle(rng, n):
+    """stratum: the shapes of _gen_new_shape through the real round trip, classified by the refined classifier"""
+    import collections
+    F = fam_parseast
+    pts = [_gen_new_shape(rng) for _ in range(n)]
+    infos = _refined([(ir, o) for ir, o, _ in pts])
+    hist, failures = collections.Counter(), []
+    n_eval = 0
+    for (ir, o, tags), info in zip(pts, infos):
+        cls = info[0]
+        if cls == "out-of-domain":
+            hist["new-shapes:out-of-domain"] += 1
+            continue
+        case = {"kind": "argparse", "ir": ir, "opts": o}
+        ok, what, out = F.round_trip("argparse", ir, o)
+        n_eval += 1
+        if cls == "unmodelled":
+            continue
+        if not ok:
+            cls, note = _classify_failure(case, out, info)
+            failures.append({"case": case, "what": what + note, "class": cls})
+        hist["new-shapes:%s:%s:%s" % (tags[0], "holds" if ok else "fails", cls or "in-guard")] += 1
+    hist["new-shapes:points"] = n_eval
+    return dict(hist), failures
+
+
+def _reclassify(failures):
+    """failures of the other streams that finding_class_C04 does not name: ask the refined classifier"""
+    idx = [k for k, f in enumerate(failures) if f.get("class") is None and isinstance(f.get("case"), dict)
+           and f["case"].get("kind") == "argparse" and "ir" in f["case"] and "opts" in f["case"] and "ir_long" not in f["case"]]
+    if not idx:
+        return {}
+    infos = _refined([(failures[k]["case"]["ir"], failures[k]["case"]["opts"]) for k in idx])
+    hist = {}
+    for k, info in zip(idx, infos):
+        if info[0] not in NEW_CLASSES:
+            continue
+        f = failures[k]
+        _, _, out = fam_parseast.round_trip("argparse", f["case"]["ir"], f["case"]["opts"])
+        cls, note = _classify_failure(f["case"], out, info)
+        f["class"], f["what"] = cls, f["what"] + note
+        key = "reclassified:" + (cls or "not-described")
+        hist[key] = hist.get(key, 0) + 1
+    return hist
+
+
 def oracle(rng, tier):
     n = 3000 if tier == "quick" else 40000
     res = fam_parseast.oracle_argparse(rng, n)
@@ -212,8 +338,16 @@ def oracle(rng, tier):
     res["evaluations"] += hist.get("wrap-off-length:points", 0)
     res["rule"] += (" | wrapping off: points (half with a return entry that carries a default) re-run with proses lengthened past the "
                     "wrap width must parse back to the same interface with the longer prose verbatim")
-    res["rule"] += (" | audit of the theorem's guard: points inside guard_C04_ast (wrapping off) must be unflagged by finding_class_C04 "
+    res["rule"] += (" | audit of the theorem's guard: points inside guard_C04_ast (wrapping off) must be unflagged by finding_class_C04_r "
                     "and round-trip on the real code")
+    res["histogram"].update(_reclassify(res["failures"]))
+    hist, failures = _new_shape_oracle(rng, 300 if tier == "quick" else 3000)
+    res["histogram"].update(hist)
+    res["failures"] += failures
+    res["evaluations"] += hist.get("new-shapes:points", 0)
+    res["rule"] += (" | stratum of the shape a proof found inside the first classifier's no-finding region (a description / a help "
+                    "text that starts and ends with the same quote mark), classified by finding_class_C04_r; a new class stands "
+                    "only for the difference it describes")
     return res
 
 
